@@ -46,7 +46,7 @@ def gen_case(rng, kind):
 
 def encode(model, row):
     if model.kind == "delimited":
-        return [storage.delimited_text([row])]
+        return [storage.delimited_text([row], model.quote, model.escape)]
     text = "".join(cell.ljust(w) for cell, w in zip(row, model.widths()))
     ld = model.line_delimiter
     if ld in (None, "any"):
